@@ -223,6 +223,16 @@ def _run_chain(harness, init, hist, listeners, observe=False):
                             continue
                         recs.append({"t": "call", "call": q, "out": o2, "exc": e2, "same": True,
                                      "pre_rel": last_step, "ret": reg.last_ret or [], "info": reg.last_info or []})
+            if reg.held:         # pin queries rooted at hierarchical PORT references held since earlier steps (stale ones too)
+                ports = [json.loads(k) for k in sorted(reg.held) if json.loads(k) and json.loads(k)[-1][0] == "P"][:8]
+                for hp in ports:
+                    q = {"op": "hq", "fn": "hpins", "root": {"t": "H", "h": hp}, "rec": False, "sel": "DEFAULT"}
+                    try:
+                        o2, e2 = harness.execute(reg, q)
+                    except harness.HarnessError:
+                        continue
+                    recs.append({"t": "call", "call": q, "out": o2, "exc": e2, "same": True,
+                                 "pre_rel": last_step, "ret": reg.last_ret or [], "info": reg.last_info or []})
             if reg.held:         # re-read every reference held from earlier queries
                 q = {"op": "hcheck", "held": True, "hs": [json.loads(k) for k in sorted(reg.held)][:60]}
                 harness.execute(reg, q)
